@@ -53,7 +53,10 @@ def rewrites(func: Func) -> List[Tuple[ast.AST, str, Optional[str]]]:
     out = []
     for s in subs:
         pat = None
-        if isinstance(s.func.value, ast.Name):
+        if unparse(s.func.value) == "re":  # re.sub(pattern, repl, s)
+            pat = const_str(s.args[0]) if s.args else None
+            repl = const_str(s.args[1]) if len(s.args) > 1 else None
+        elif isinstance(s.func.value, ast.Name):
             prev = [c for c in comps if c[2] == s.func.value.id and c[0].lineno <= s.lineno]
             if prev:
                 pat = prev[-1][1]
@@ -62,16 +65,13 @@ def rewrites(func: Func) -> List[Tuple[ast.AST, str, Optional[str]]]:
             a = s.func.value.args[0] if s.func.value.args else None
             pat = const_str(a) if a is not None else None
             repl = const_str(s.args[0]) if s.args else None
-        elif unparse(s.func.value) == "re":  # re.sub(pattern, repl, s)
-            pat = const_str(s.args[0]) if s.args else None
-            repl = const_str(s.args[1]) if len(s.args) > 1 else None
         else:
             continue
         out.append((s, pat, repl))
     return out
 
 
-MAP_POS = ["[CH3:1]", "[C:12]", "[13C@@H:7]", "[O-:3]", "[nH:4]", "C[Cl:2]", "[Na+:11].[Cl-:12]"]
+MAP_POS = {"[CH3:1]": "[CH3]", "[C:12]": "[C]", "[13C@@H:7]": "[13C@@H]", "[O-:3]": "[O-]", "[nH:4]": "[nH]", "C[Cl:2]": "C[Cl]", "[Na+:11].[Cl-:12]": "[Na+].[Cl-]", "[CH2:3]=[CH2:40]": "[CH2]=[CH2]"}
 MAP_NEG = ["c1ccccc:1", "C:1", "c:c", "c1cc:c:cc1", "C1=CC=CC=C:1", "c:1[CH3]c1"]
 
 
@@ -92,7 +92,7 @@ def rule_rg1_rg2(ctx) -> None:
             # deletion pattern: map removal
             n_map += 1
             bad_neg = [s for s in MAP_NEG if rx.sub("", s) != s]
-            bad_pos = [s for s in MAP_POS if re.search(r":\d", rx.sub("", s))]
+            bad_pos = [s for s, want in MAP_POS.items() if rx.sub("", s) != want]
             ctxt = regexlang.has_lookaround(tree) or pat.startswith("\\[") or "(?<=" in pat
             ok = not bad_neg and not bad_pos
             ctx.instance("C15-Rg2", "deletion pattern %r: bracket context=%s; probes outside brackets changed: %s; maps surviving: %s" % (pat, ctxt, bad_neg, bad_pos), f.loc(call), ok=ok)
